@@ -51,3 +51,9 @@ Definition sorted_paths_ok (keys : list (list Z)) (from h : Z) (obs : list Z) : 
   strictly_incb obs &&
   forallb (fun s => memZ (spec_PathOf s from h) obs) keys &&
   forallb (fun p => memZ p (map (fun s => spec_PathOf s from h) keys)) obs.
+
+(** consecutive windows compose (descending one trie level after another):
+    FromStr32 over [from, from+w1) and [from+w1, from+w1+w2) against [from, from+w1+w2) *)
+Definition split_ok (w1 w2 : Z) (r1 r2 r : Z * Z) : bool :=
+  (fst r =? fst r1 + fst r2) && (snd r =? snd r1 * 2 ^ w2 + snd r2) &&
+  (if fst r1 <? w1 then fst r2 =? 0 else true).
